@@ -54,17 +54,21 @@ Trees ==
      \* 7: everything of the hand-made probe tree
      << N(<<nA>>, "d"), N(<<nA, nA>>, "f"), N(<<nA, nB>>, "d"), N(<<nA, nB, nA>>, "f"), N(<<nA, nDotH>>, "f"),
         N(<<nDotH>>, "d"), N(<<nDotH, nA>>, "f"), N(<<nD>>, "d"), N(<<nD, nAA>>, "f"), N(<<nB>>, "f"), N(<<nAA>>, "f"),
-        N(<<nAc>>, "f"), N(<<nXY>>, "f"), N(<<nStar>>, "f"), L(<<nLa>>, <<nA>>), L(<<nLf>>, <<nB>>), L(<<nLx>>, <<nNowhere>>) >> >>
+        N(<<nAc>>, "f"), N(<<nXY>>, "f"), N(<<nStar>>, "f"), L(<<nLa>>, <<nA>>), L(<<nLf>>, <<nB>>), L(<<nLx>>, <<nNowhere>>) >>,
+     \* 8: hidden symbolic links: to a file and to a directory, at the top and inside a directory, next to visible ones
+     << N(<<nA>>, "d"), N(<<nA, nB>>, "d"), N(<<nD>>, "d"), N(<<nA, <<"f">>>>, "f"), N(<<<<"f">>>>, "f"),
+        L(<<<<".", "l", "f">>>>, <<nA, <<"f">>>>), L(<<<<".", "l", "d">>>>, <<nD>>), L(<<nA, <<".", "l", "d">>>>, <<nD>>),
+        L(<<nA, <<".", "l">>>>, <<<<"f">>>>), L(<<<<"l">>>>, <<nD>>), L(<<nA, nLf>>, <<<<"f">>>>) >> >>
   \o (IF ~Wide THEN <<>> ELSE
-  << \* 8: only hidden entries
+  << \* 9: only hidden entries
      << N(<<nDotH>>, "f"), N(<<<<".", "a">>>>, "d"), N(<<<<".", "a">>, nB>>, "f") >>,
-     \* 9: case variants
+     \* 10: case variants
      << N(<<nA>>, "f"), N(<<nAA>>, "f"), N(<<nAb>>, "f"), N(<<<<"A", "b">>>>, "f"), N(<<<<"D">>>>, "d"), N(<<<<"D">>, nA>>, "f") >>,
-     \* 10: a link to a link to a directory, a link to a file inside the directory
+     \* 11: a link to a link to a directory, a link to a file inside the directory
      << N(<<nA>>, "d"), N(<<nA, nB>>, "f"), L(<<nLa>>, <<nA>>), L(<<<<"l", "l">>>>, <<nLa>>), N(<<nD>>, "d"), N(<<nD, nA>>, "d"), N(<<nD, nA, nB>>, "f") >>,
-     \* 11: a directory whose name has a space, a file whose name is a pattern
+     \* 12: a directory whose name has a space, a file whose name is a pattern
      << N(<<nXY>>, "d"), N(<<nXY, nA>>, "f"), N(<<nStar>>, "f"), N(<<<<"s", "a">>>>, "f"), N(<<<<"[", "a", "b", "]">>>>, "f") >>,
-     \* 12: deep
+     \* 13: deep
      << N(<<nA>>, "d"), N(<<nA, nA>>, "d"), N(<<nA, nA, nA>>, "d"), N(<<nA, nA, nA, nB>>, "f"), N(<<nB>>, "f"), N(<<nA, nDotH>>, "d"), N(<<nA, nDotH, nA>>, "f") >> >>)
 
 HasNode(t, p) == \E i \in 1..Len(t) : t[i].p = p
@@ -132,34 +136,16 @@ Match(p, s, nocase) ==
          [] e.k = "set"  -> s # <<>> /\ (InSet(Head(s), e.cs, nocase) # e.neg) /\ Match(Tail(p), Tail(s), nocase)
 
 \* Named deviations of the implementation (switches, as in ShParam): ExpandPath({}, ...) is the contract.
-\*  DotRuleStarOnly       a leading "." of a name is only protected from a "*" that starts the component: ?h, [!a]*,
-\*                        [.]h and *.* all match .h (pattern.Regexp, Filenames mode)
-\*  EscapedMetaIsPattern  a backslash-escaped * or ? in a word acts as the wildcard: s\* expands to s* sa, and with
-\*                        nullglob and no match to nothing (expand.go wordFields drops the backslash before globbing)
-\*  GlobstarFollowsLinks  "**" descends through symbolic links to directories
 \*  ExtNeedsPlainMeta     a word whose only metacharacters are @( +( !( is not globbed at all (expand.go escapedGlobField
 \*                        looks for * ? [ only), and a path component of that kind is taken as a literal name (glob uses
 \*                        pattern.HasMeta, which does not know the extended operators)
-AllDevs == {"DotRuleStarOnly", "EscapedMetaIsPattern", "GlobstarFollowsLinks", "ExtNeedsPlainMeta"}
-
-\* the implementation's dot rule: at the start of a name that begins with ".", "*" may only match nothing;
-\* anything else ("?", a bracket, a literal) may take the dot
-RECURSIVE MatchDev(_, _, _, _)
-MatchDev(p, s, nocase, lead) ==
-  IF p = <<>> THEN s = <<>>
-  ELSE LET e == Head(p) IN
-       CASE e.k = "ext" -> \E i \in 0..(IF lead THEN 0 ELSE Len(s)) : ExtMatch(e.c, e.alts, Take(s, i), nocase) /\ MatchDev(Tail(p), Drop(s, i), nocase, lead /\ i = 0)
-         [] e.k \in {"star", "globstar"} -> \E i \in 0..(IF lead THEN 0 ELSE Len(s)) : MatchDev(Tail(p), Drop(s, i), nocase, lead /\ i = 0)
-         [] e.k = "any"  -> s # <<>> /\ MatchDev(Tail(p), Tail(s), nocase, FALSE)
-         [] e.k = "lit"  -> s # <<>> /\ Eq(Head(s), e.c, nocase) /\ MatchDev(Tail(p), Tail(s), nocase, FALSE)
-         [] e.k = "set"  -> s # <<>> /\ (InSet(Head(s), e.cs, nocase) # e.neg) /\ MatchDev(Tail(p), Tail(s), nocase, FALSE)
+\* Retired, because /repo was fixed: DotRuleStarOnly (9641498), EscapedMetaIsPattern (25ace62), GlobstarFollowsLinks (055c91e).
+AllDevs == {"ExtNeedsPlainMeta"}
 
 \* a name is matched by a component: the leading dot rule, then Match
 MatchName(dv, c, name, o) ==
-  IF "DotRuleStarOnly" \in dv /\ "dotglob" \notin o
-  THEN MatchDev(c, name, "nocaseglob" \in o, name[1] = ".")
-  ELSE /\ (name[1] = "." => ("dotglob" \in o \/ (c # <<>> /\ c[1].k = "lit" /\ c[1].c = ".")))
-       /\ Match(c, name, "nocaseglob" \in o)
+  /\ (name[1] = "." => ("dotglob" \in o \/ (c # <<>> /\ c[1].k = "lit" /\ c[1].c = ".")))
+  /\ Match(c, name, "nocaseglob" \in o)
 
 \* ------------------------------------------------------------------ words
 \* a word: components (between "/"), whether it ends with "/"
@@ -240,9 +226,6 @@ WordLitCs(cs) == IF cs = <<>> THEN <<>> ELSE IF Len(cs) = 1 THEN CompLit(cs[1]) 
 \* the word after quote removal (what is printed when nothing matches)
 WordLit(w) == WordLitCs(w.cs) \o (IF w.slash THEN <<"/">> ELSE <<>>)
 WordHasMeta(w) == \E i \in 1..Len(w.cs) : CompHasMeta(w.cs[i])
-\* a backslash-escaped metacharacter somewhere (and nothing unquoted): the trigger of EscapedMetaIsPattern
-WordHasEscapedMeta(w) == \E i \in 1..Len(w.cs) : \E k \in 1..Len(w.cs[i]) :
-                            w.cs[i][k].k = "lit" /\ w.cs[i][k].c \in {"*", "?", "["} /\ w.cs[i][k].src[1] = "\\"
 
 \* ------------------------------------------------------------------ expansion
 \* a partial match: the text printed so far and the (real) directory it denotes
@@ -256,7 +239,7 @@ RECURSIVE Below(_, _, _, _, _, _, _)
 Below(dv, t, out, d, o, fuel, links) ==
   <<PM(out, d)>> \o
   (IF fuel = 0 THEN <<>>
-   ELSE LET follow == "GlobstarFollowsLinks" \in dv
+   ELSE LET follow == FALSE
             cs == SelectSeq(Children(t, d), LAMBDA nm : (nm[1] # "." \/ "dotglob" \in o) /\ IsDir(t, Append(d, nm))
                                                          /\ (links \/ follow \/ ~IsLink(t, Append(d, nm))))
             RECURSIVE Each(_)
@@ -275,7 +258,7 @@ AllBelow(dv, t, out, d, o, fuel) ==
       Each(s) == IF s = <<>> THEN <<>>
                  ELSE LET nm == Head(s) p == Append(d, nm) IN
                       <<Ext(out, nm)>>
-                      \o (IF fuel > 0 /\ (~IsLink(t, p) \/ "GlobstarFollowsLinks" \in dv) /\ IsDir(t, p)
+                      \o (IF fuel > 0 /\ ~IsLink(t, p) /\ IsDir(t, p)
                           THEN AllBelow(dv, t, Ext(out, nm), RealDir(t, p), o, fuel - 1) ELSE <<>>)
                       \o Each(Tail(s))
   IN Each(cs)
@@ -312,13 +295,8 @@ Walk(dv, t, cs, pms, o, slash) ==      \* pms: sequence of partial matches; retu
          IN Walk(dv, t, Tail(cs), FlatMap(F, pms), o, slash)
 
 WordHasPlainMeta(w) == \E i \in 1..Len(w.cs) : CompHasPlainMeta(w.cs[i])
-\* the word as the implementation sees it under EscapedMetaIsPattern: \* is *, \? is ?
-UnescapeComp(c) == [k \in 1..Len(c) |->
-                     IF c[k].k = "lit" /\ c[k].src[1] = "\\" /\ c[k].c = "*" THEN PStar
-                     ELSE IF c[k].k = "lit" /\ c[k].src[1] = "\\" /\ c[k].c = "?" THEN PAny ELSE c[k]]
-UnescapeWord(w) == [cs |-> [i \in 1..Len(w.cs) |-> UnescapeComp(w.cs[i])], slash |-> w.slash]
 ExpandPath(dv, t, w0, o) ==
-  LET w == IF "EscapedMetaIsPattern" \in dv THEN UnescapeWord(w0) ELSE w0 IN
+  LET w == w0 IN
   IF "ExtNeedsPlainMeta" \in dv /\ WordHasMeta(w) /\ ~WordHasPlainMeta(w) THEN << WordLit(w0) >>
   ELSE
   IF "noglob" \in o \/ ~WordHasMeta(w) THEN << WordLit(w0) >>
